@@ -90,6 +90,9 @@ def filterMapping : FilterCase :=
 def filterGen : FilterCase :=
   ([("p", "Bar")], [sch [obj "Foo" (st [("kind", str)]), obj "Bar" (.struct [] [ref "Foo"] (some ("disjunction_of_refs", {})) {})]])
 def filterEntry : FilterCase := ([("p", "Bar")], entryS)
+/-- Java chain: `Kind` is a bare reference to the struct `Spec`; `Baz` uses `Spec` in an array -/
+def javaAlias : Schemas :=
+  [sch [obj "Kind" (ref "Spec"), obj "Spec" (st [("x", str)]), obj "Baz" (st [("a", .array (ref "Spec") {})])]]
 end W
 
 open W in
@@ -111,7 +114,8 @@ def witnesses : List Witness := [
   ⟨"filter-mapping", .filter filterMapping.1 filterMapping.2⟩,
   ⟨"filter-gen", .filter filterGen.1 filterGen.2⟩,
   ⟨"filter-entrypoint", .filter filterEntry.1 filterEntry.2⟩,
-  ⟨"php-inline-order", .chain "php" (phpOrder true)⟩
+  ⟨"php-inline-order", .chain "php" (phpOrder true)⟩,
+  ⟨"java-alias-removed", .chain "java" javaAlias⟩
 ]
 
 def witness (n : String) : Option Witness := witnesses.find? (·.name == n)
